@@ -10,6 +10,7 @@ PROP = dict(
         dict(name="universe", harness="dav", oracle="DAV", args=["-stage", "universe"], oracle_args=["c02"]),
         dict(name="history", harness="dav", oracle="DAV", args=["-stage", "history"], oracle_args=["c02"]),
         dict(name="putfault", harness="dav", oracle="DAV", args=["-stage", "putfault"], oracle_args=["c02"]),
+        dict(name="putsteps", harness="dav", oracle="DAV", args=["-stage", "putsteps"], oracle_args=["c02"]),
     ],
     rule=UNIVERSE + "; random histories as for C01; PUT fault matrix: body sizes {0,1,5,32767,32768,32769,100000} x failure offsets {0,1,2,size-1,size,32767,32768,32769,none} x targets {absent, existing file, collection, missing parent, parent is a file, nested file}; the same offsets as points at which the request context is cancelled (body readable to the end, or failing one byte later; with and without If-Match / If-None-Match), every other method with an already cancelled context; planted-name trees: the names that exist in the sandbox while the real handler reads a PUT body (discovered by probing twice) and the usual derived names (<t>.part, <t>.tmp, <t>~, .<t>.tmp, <t>.new, <t>.bak, .<t>.swp, <t>.upload, .webdav-upload-0, tmp) each hold an unrelated file while PUTs succeed or fail beside them; non-trivial = every case; distinct = by digest of (tree, request)",
     exhaustive=True,
